@@ -556,7 +556,11 @@ class Flow:
                         # q, r = divmod(a, b): q is a // b and r is a % b - the spelling every rule reads
                         return ast.copy_location(ast.BinOp(left=base.args[0], op=ast.FloorDiv() if d.index[0] == 0 else ast.Mod(), right=base.args[1]), node)
                     for i in d.index:
-                        base = ast.Subscript(value=base, slice=ast.Constant(i), ctx=ast.Load())
+                        if isinstance(base, (ast.Tuple, ast.List)) and isinstance(i, int) and -len(base.elts) <= i < len(base.elts) \
+                                and not any(isinstance(e_, ast.Starred) for e_ in base.elts):
+                            base = base.elts[i]      # element i of a literal tuple is that element
+                        else:
+                            base = ast.Subscript(value=base, slice=ast.Constant(i), ctx=ast.Load())
                     return ast.copy_location(base, node)
                 if d.kind != "assign" or d.value is None:
                     return leave(node)
